@@ -1,6 +1,6 @@
 import Chiritori.Model.Finders
 /-
-  Model of chiritori/src/code/formatter.rs and formatter/*.rs (after the D13 repair).
+  Model of chiritori/src/code/formatter.rs and formatter/*.rs (after the D13 and D15 repairs).
 -/
 namespace Chiritori
 
@@ -94,9 +94,13 @@ def fmtBlockIndent (b : Bytes) (startPos endPos : Nat) : List Rng' :=
     match findPrevLB b startPos true with
     | some p => startPos - p - 1
     | none => 0
-  let cur := startPos + 1
-  let indentLen := getIndentLen b cur - indentOfs
-  blockLoop b endPos indentOfs indentLen (b.length + 1) cur
+  -- the first line of the block starts behind the line break that ends the seam's line
+  match (b.drop startPos).findIdx? (fun x => x == .lead '\n') with
+  | none => []
+  | some ofs =>
+    let cur := startPos + ofs + 1
+    let indentLen := getIndentLen b cur - indentOfs
+    blockLoop b endPos indentOfs indentLen (b.length + 1) cur
 
 /-- insertion of one new range, scanning backwards from `cursor` (an index into `ranges`, or none) -/
 def findCursor (ranges : List Rng') (newStart : Nat) : Nat → Option Nat
